@@ -467,6 +467,32 @@ impl<'a> Analysis<'a> {
                         ));
                     }
                 }
+                // whatever reached this endpoint for the flow must be readable before end-of-stream, also when the
+                // connection is ending (the data was delivered; the statement allows EOF only after it was returned)
+                if let (Some(_eof), Some(id), None) = (me.eof_at, s.flow_id, me.dropped_at) {
+                    let gen_start = s.connects.last().map(|c| c.0).unwrap_or(0);
+                    let mut received = 0usize;
+                    let mut closed_locally = false;
+                    for e in &self.run.events[gen_start..] {
+                        match &e.ev {
+                            Ev::Recv { side, msg: WMsg::Frame(RFrame::Push { id: p, data }) } if *side == my_side && *p == id => received += data.len(),
+                            Ev::Sent { side, msg: WMsg::Frame(RFrame::Reset { id: r }), .. } if *side == my_side && *r == id => closed_locally = true,
+                            Ev::Recv { side, msg: WMsg::Frame(RFrame::Reset { id: r }) } if *side == my_side && *r == id => break,
+                            Ev::Sent { side, msg: WMsg::Frame(RFrame::Connect { id: c, .. }), .. } if *c == id && e.step > 0 && *side != self.case.streams[i].side => break,
+                            _ => {}
+                        }
+                    }
+                    let reused = self.streams.iter().enumerate().any(|(j, t)| j != i && t.connects.iter().any(|c| c.1 == id));
+                    if !closed_locally && !reused && self.case.raw.is_none() && me.total_read() < received {
+                        return Err((
+                            "c05-delivered-data-lost".into(),
+                            format!(
+                                "stream {i} end {end}: {received} bytes of Push frames for flow {id:08x} reached this endpoint, but the reader got end-of-stream after {} bytes",
+                                me.total_read()
+                            ),
+                        ));
+                    }
+                }
                 // writes after own shutdown must fail
                 if let Some(sd) = me.shutdown_at {
                     let before = me.written_before(sd);
